@@ -342,13 +342,19 @@ def advance (x : β) : List β → List β
   | y :: z :: rest => if lt y x then advance x (z :: rest) else y :: z :: rest
   | s => s
 
+/-- `i > 0 && v1[i] == v1[i-1]` -/
+def sameAsPrev (prev : Option β) (x : β) : Bool :=
+  match prev with
+  | some p => eq x p
+  | none => false
+
 /-- loop of `diff` (VectorTools.h:1983-1988) over the sorted `v1` (with the previous element, for
 `if (i > 0 && v1[i] == v1[i-1]) continue`) and the current suffix of the sorted `v2`;
 `v2[j]` is a checked read (the suffix is empty exactly when `v2` is) -/
 def diffLoop : Option β → List β → List β → Res (List β)
   | _, [], _ => .ok []
   | prev, x :: xs, s =>
-    if (match prev with | some p => eq x p | none => false) then diffLoop (some x) xs s
+    if sameAsPrev eq prev x then diffLoop (some x) xs s
     else
       let s' := advance lt x s
       match s' with
@@ -370,7 +376,7 @@ def diffOrig (v1 v2 : List β) : Res (List β) := do
 def diffLoopFixed : Option β → List β → List β → List β
   | _, [], _ => []
   | prev, x :: xs, s =>
-    if (match prev with | some p => eq x p | none => false) then diffLoopFixed (some x) xs s
+    if sameAsPrev eq prev x then diffLoopFixed (some x) xs s
     else
       let s' := advance lt x s
       match s' with
